@@ -4,6 +4,7 @@ import (
 	"context"
 	"fmt"
 	"net"
+	"syscall"
 	"testing"
 
 	tq "github.com/facebookincubator/tacquito"
@@ -42,7 +43,7 @@ func readGauges(names []string) (map[string]float64, error) {
 }
 
 type c20Op struct {
-	Kind    string `json:"kind"` // complete | start | continue | even-first | replay | badkey | eof-mid | eof
+	Kind    string `json:"kind"` // complete | start | continue | even-first | even-open | replay | badkey | eof-mid | eof | read-error | read-error-mid | write-fails | write-fails-open (injected transport faults)
 	Session uint32 `json:"session"`
 }
 
@@ -63,7 +64,7 @@ func genC20(t *rapid.T) c20Case {
 		nops := rapid.IntRange(0, 6).Draw(t, "nops")
 		for j := 0; j < nops && !cc.Refused; j++ {
 			op := c20Op{
-				Kind:    rapid.SampledFrom([]string{"complete", "complete", "start", "start", "start", "continue", "continue", "even-first", "even-open", "replay", "badkey", "eof-mid", "eof"}).Draw(t, "kind"),
+				Kind:    rapid.SampledFrom([]string{"complete", "complete", "start", "start", "start", "continue", "continue", "even-first", "even-open", "replay", "badkey", "eof-mid", "eof", "read-error", "read-error-mid", "write-fails", "write-fails-open"}).Draw(t, "kind"),
 				Session: rapid.Uint32Range(1, 3).Draw(t, "session"),
 			}
 			cc.Ops = append(cc.Ops, op)
@@ -211,6 +212,20 @@ func runC20(t failer, c c20Case) (abandoned, rejected int) {
 				rejected++
 			case "eof":
 				st.conn.FeedEOF()
+			case "read-error":
+				// the transport fails a read (connection reset) at a packet boundary
+				st.conn.FeedError(syscall.ECONNRESET)
+			case "read-error-mid":
+				w := pkt(1, op.Session+400, false)
+				st.conn.Feed(w[:14])
+				st.conn.FeedError(syscall.ECONNRESET)
+				rejected++
+			case "write-fails", "write-fails-open":
+				// the peer is gone by the time the reply is written: every later Write fails; with
+				// "-open" the request asks for a continuation, so a session is open when that happens
+				st.conn.FailWrites(syscall.EPIPE)
+				wire = pkt(1, op.Session+500, op.Kind == "write-fails-open")
+				rejected++
 			}
 			if wire != nil {
 				st.conn.Feed(wire)
